@@ -40,6 +40,14 @@ func (w *world) caseSet(fn *ssa.Function, pi int, callers []*ssa.Function) (vals
 			}
 		case *ssa.Call:
 			if cal := x.Common().StaticCallee(); cal != nil && cal.Blocks != nil && depth < 4 {
+				// a table function of the attribute name: evaluate it on every attribute constant and on a name
+				// that is none of them
+				if vals, ok := w.tableValues(cal); ok {
+					for _, v := range vals {
+						set[v] = true
+					}
+					return
+				}
 				okAll := true
 				for _, b := range cal.Blocks {
 					if r, ok := b.Instrs[len(b.Instrs)-1].(*ssa.Return); ok && len(r.Results) == 1 {
@@ -90,6 +98,45 @@ func (w *world) caseSet(fn *ssa.Function, pi int, callers []*ssa.Function) (vals
 	}
 	sort.Slice(vals, func(i, j int) bool { return vals[i] < vals[j] })
 	return vals, complete
+}
+
+// tableValues evaluates a one-string-parameter package function on all modeling.*Attribute
+// constants plus an unknown name and returns the integer constants it can yield.
+func (w *world) tableValues(fn *ssa.Function) ([]int64, bool) {
+	if fn.Pkg != w.pkg || len(fn.Params) != 1 {
+		return nil, false
+	}
+	if b, ok := fn.Params[0].Type().Underlying().(*types.Basic); !ok || b.Kind() != types.String {
+		return nil, false
+	}
+	mp := w.c.P.All[modelingPath]
+	if mp == nil {
+		return nil, false
+	}
+	args := []string{"\x00verif-unknown-attribute"}
+	for _, n := range mp.Types.Scope().Names() {
+		if k, ok := mp.Types.Scope().Lookup(n).(*types.Const); ok && strings.HasSuffix(n, "Attribute") && k.Val().Kind() == constant.String {
+			args = append(args, constant.StringVal(k.Val()))
+		}
+	}
+	set := map[int64]bool{}
+	for _, arg := range args {
+		got, ok := w.evalConstFn(fn, arg)
+		if !ok {
+			return nil, false
+		}
+		c, isC := numConst(got)
+		if !isC {
+			return nil, false
+		}
+		set[c] = true
+	}
+	var out []int64
+	for v := range set {
+		out = append(out, v)
+	}
+	sort.Slice(out, func(i, j int) bool { return out[i] < out[j] })
+	return out, true
 }
 
 type epoch struct {
